@@ -16,6 +16,7 @@ class ScriptControl:
     def __init__(self, file_name, run_background=False, title='', path='',
                 background='', color='', icon=''):
         self.file_name = html.escape(file_name)
+        self.source_file = file_name
         self.run_background = run_background
         self.path = html.escape(path)
         self.title = html.escape(title)
@@ -58,7 +59,7 @@ class WebApp:
     @inject(Settings)
     def queue_script(self, script_control, settings):
         fname = join(
-            settings.get_value("script_path", "."), script_control.file_name)
+            settings.get_value("script_path", "."), script_control.source_file)
         job = ScriptJob.from_file(fname)
         if script_control.run_background:
             self._jobs.spawn_job(job, script_control.path)
@@ -117,7 +118,10 @@ class WebApp:
         return path
 
     def stop_script(self, path) -> bool:
-        return self._jobs.stop_job(path)
+        script_control = self._scripts.get(path, None)
+        if script_control is None:
+            return False
+        return self._jobs.stop_job(script_control.path)
 
     def stop_current(self) -> bool:
         return self._jobs.stop_current()
